@@ -782,6 +782,14 @@ func (f *flattener) split(cond ast.Expr, cons pathCons) (ts, fs []pathCons) {
 			}
 		}
 	}
+	// utf8.ValidRune(p): 0 <= p < 0xD800 or 0xDFFF < p <= 0x10FFFF (the documented contract of unicode/utf8)
+	if call, ok := cond.(*ast.CallExpr); ok && len(call.Args) == 1 {
+		if fo, ok := f.info.Uses[calleeIdent(call.Fun)].(*types.Func); ok && fo.Pkg() != nil && fo.Pkg().Path() == "unicode/utf8" && fo.Name() == "ValidRune" {
+			if p := f.paramOf(call.Args[0]); p != nil && !cons[p].isStr {
+				return f.splitBySet(cons, p, []ivl{{0, 0xD7FF}, {0xE000, 0x10FFFF}})
+			}
+		}
+	}
 	// a predicate helper of the same package applied to a parameter: `func isX(r rune) bool { return <condition on r> }`
 	// is the condition itself, with the helper's parameter standing for the argument
 	if call, ok := cond.(*ast.CallExpr); ok && len(call.Args) == 1 {
